@@ -87,20 +87,23 @@ def verifyShares (F : Flags) (H : HashFn) (dah : Dah) (axis : Axis) (index : Nat
         | .error e => .error (.rangeProof e)
         | .ok () => verifyShares F H dah axis index rest (i + 1)
 
+/-- namespace of the `n`-th rebuilt leaf of the axis `index`: `.ok none` = "befp is legit" (the reconstructed original
+    data carries no valid namespace; before the fix: `.unwrap()` panic) -/
+def leafNs (F : Flags) (k index n : Nat) (sh : Bytes) : Except BErr (Option Bytes) :=
+  if n < k && (!F.nsFixed || index < k) then
+    if sh.length < NS_SIZE then .error .panic            -- `&share[..NS_SIZE]`
+    else
+      match Namespace.fromRaw (sh.take NS_SIZE) with
+      | .ok ns => .ok (some ns)
+      | .error _ => if F.nsFixed then .ok none else .error .panic   -- was `.unwrap()`
+  else .ok (some parityNs)
+
 /-- the rebuild loop `for (n, share) in rebuilt_shares.iter().enumerate()`: namespace of leaf `n`, then `push_leaf`
     with its order check against `hi`.  `.ok none` = an early `return Ok(())` ("befp is legit"). -/
 def rebuildLeaves (F : Flags) (H : HashFn) (k index : Nat) : List Bytes → Nat → Bytes → Except BErr (Option (List NsHash))
   | [], _, _ => .ok (some [])
   | sh :: rest, n, hi =>
-    let ns? : Except BErr (Option Bytes) :=
-      if n < k && (!F.nsFixed || index < k) then
-        if sh.length < NS_SIZE then .error .panic            -- `&share[..NS_SIZE]`
-        else
-          match Namespace.fromRaw (sh.take NS_SIZE) with
-          | .ok ns => .ok (some ns)
-          | .error _ => if F.nsFixed then .ok none else .error .panic   -- was `.unwrap()`
-      else .ok (some parityNs)
-    match ns? with
+    match leafNs F k index n sh with
     | .error e => .error e
     | .ok none => .ok none
     | .ok (some ns) =>
